@@ -48,6 +48,13 @@ def chain_common(ctx, cfg, c, key, who):
         ok, why = c.propagated(e)
         ctx.oblige(key + "|propagated|" + c.data_desc(e)[:70], ok,
                    "%s: the Result of appending %s is not propagated (%s): overflow would be a panic or silently shortened data" % (who, c.data_desc(e)[:70], why), cfg=cfg, where=H.line(e))
+    # error exits: only failed appends / delegations / conversions propagated with `?`; an explicit `Err(..)` result moves the
+    # accept/reject frontier by a hand-written test (conservative: a correct pre-check is reported too, DESIGN section 4.1)
+    for s in c.A.sites:
+        if s.wrappers[:1] == ["core::result::Result::Err"]:
+            ctx.oblige(key + "|explicit-error|" + " & ".join(c.A.cond_str(x) for x in s.conds)[:80], False,
+                       "%s fails with a hand-written test (%s) rather than because an append did not fit: inputs that fit exactly may be rejected" % (who, "; ".join(c.A.cond_str(x) for x in s.conds)[:160]),
+                       cfg=cfg, where=H.line(s.node) if s.node else None)
     return len(seen)
 
 
